@@ -32,7 +32,7 @@ TrRelease == /\ l <= Len(Trace) /\ E.ev = "C20Release"
              /\ waiting' = [ waiting EXCEPT ![E.args.image] = {} ]
              /\ lw' = [ valid |-> TRUE, e |-> E, expect |-> waiting[E.args.image] ] /\ l' = l + 1
 
-TrOther == /\ l <= Len(Trace) /\ E.ev \in {"C20End", "C20Stress"}
+TrOther == /\ l <= Len(Trace) /\ E.ev \in {"C20End", "C20Stress", "C20Hang"}
            /\ UNCHANGED waiting /\ lw' = [ valid |-> TRUE, e |-> E, expect |-> {} ] /\ l' = l + 1
 
 Next == TrReset \/ TrReq \/ TrRelease \/ TrOther
@@ -68,6 +68,7 @@ Inv_C20_NoPhantomPull == (IsEv("C20Release") /\ W.res = "nopull") => lw.expect =
 \* every caller gets a private copy
 Inv_C20_Private == IsEv("C20Release") => ~W.args.aliased
 
-Inv_C20_NoLostWakeup == IsEv("C20Stress") => ~W.args.lostWakeup
+\* ... and nobody waits for ever: a script that does not finish (callers blocked, the manager's lock never released) is a hang
+Inv_C20_NoLostWakeup == (IsEv("C20Stress") => ~W.args.lostWakeup) /\ ~IsEv("C20Hang")
 
 =============================================================================
